@@ -216,7 +216,11 @@ _S("stats.dirichlet.logpdf", "sp.stats.dirichlet.logpdf(__import__('numpy').arra
 VALS = [0.5, -1.25, 2.0, 0.75, -0.5, 1.5, 3.0, -2.25, 0.25, 1.0, -0.75, 2.5, 1.75, -1.5, 0.625, 2.25, -0.375, 1.125]
 
 
+_SHIFT = [0]
+
+
 def _mk(shape, kind, off):
+    off = off + _SHIFT[0]
     n = int(onp.prod(shape)) if shape != () else 1
     v = onp.array([VALS[(off + 3 * i) % 18] + 0.0625 * i for i in range(n)])
     if kind == "P":  # positive, pairwise distinct reals (domains of log/sqrt/power; no ties)
@@ -348,8 +352,15 @@ def run(rep, tier, clauses=("N-vjp", "N-jvp", "N-value"), only_complex=False):
     if only_complex == "real-only":
         cases = [c for c in CASES if not any(k == "C" for _, k in c[2])]
     rep.bound(f"numeric stand-in: {len(cases)} configurations of complex structural rules, fft and linalg at one generic dyadic point each; central differences h=1e-6, tolerance {TOL} relative")
-    with mp.get_context("fork").Pool(8) as pool:
-        results = pool.map(run_one, cases)
+    from vlib.common import seed as _seed
+    results = []
+    shifts = [0] if tier == "quick" else [0, 1 + _seed() % 5, 7 + _seed() % 3]
+    for sh in shifts:   # thorough: three generic points per configuration (the last two depend on VERIF_SEED)
+        _SHIFT[0] = sh
+        with mp.get_context("fork").Pool(8) as pool:
+            results += [[(f"{l}@pt{sh}" if sh else l, c_, o, d) for l, c_, o, d in r] for r in pool.map(run_one, cases)]
+    _SHIFT[0] = 0
+    rep.extra["numeric_points_per_configuration"] = len(shifts)
     for res in results:
         for label, cl, ok, detail in res:
             if cl.endswith("-raises"):
@@ -359,7 +370,8 @@ def run(rep, tier, clauses=("N-vjp", "N-jvp", "N-value"), only_complex=False):
                 continue
             rep.bounded_case((label, cl), sample=dict(case=label, clause=cl, result=detail) if ok and len(rep.bounded_samples) < 6 else None)
             if not ok:
-                rep.violation(f"NUM:{cl}", label, f"{label}: {detail}", replay=dict(module="contracts.rules_numeric", label=label.split("|")[0], clause=cl), witness=True)
+                base = label.replace("@pt" + label.split("@pt")[1].split("|")[0], "") if "@pt" in label else label   # the known-finding key is the configuration, not the sample point
+                rep.violation(f"NUM:{cl}", base, f"{label}: {detail}", replay=dict(module="contracts.rules_numeric", label=label.split("|")[0], clause=cl, shift=int(label.split("@pt")[1]) if "@pt" in label else 0), witness=True)
 
 
 def run_scale(rep):
@@ -398,6 +410,8 @@ def replay(spec):
         return (not bad), (bad[0]["what"] if bad else "holds"), "scale invariance of the gradient of a norm"
     for c in CASES:
         if c[0] == spec["label"]:
+            _SHIFT[0] = int(spec.get("shift", 0))
             bad = [(l, cl, d) for l, cl, ok, d in run_one(c) if not ok]
+            _SHIFT[0] = 0
             return (not bad), (str(bad) if bad else "holds"), "conj(J_R^T conj g) from central differences on NumPy"
     return True, "case removed", ""
